@@ -1814,6 +1814,16 @@ def constant_key_reads(repo, m) -> List[tuple]:
                 out.append((n.lineno, key_of(n.args[0]), f"{ast.unparse(n.func)}(...)"))
         elif isinstance(n, ast.Subscript) and key_of(n.slice) is not None and "options" in ast.unparse(n.value).lower():
             out.append((n.lineno, key_of(n.slice), f"{ast.unparse(n.value)}[...]"))
+    # a key of the library's own namespace handed to a look-up helper (``switched_on(request, "LABREA.CACHE.DISABLED", …)``) is a literal
+    # look-up as well, wherever the helper does the reading
+    seen = {(ln, k) for ln, k, _ in out}
+    for n in ast.walk(m.tree):
+        if isinstance(n, ast.Call):
+            for a in list(n.args) + [k.value for k in n.keywords]:
+                k_ = key_of(a)
+                if k_ is not None and k_.startswith("LABREA.") and (a.lineno, k_) not in seen and (n.lineno, k_) not in seen:
+                    seen.add((a.lineno, k_))
+                    out.append((a.lineno, k_, f"{ast.unparse(n.func)[:40]}(…)"))
     return out
 
 
